@@ -35,7 +35,7 @@ def norm(l):
 
 def check(ctx):
     vlib.translate(ctx)
-    vlib.prove(ctx, "props/C02.v", ["OrderCases.vo"])
+    vlib.prove(ctx, "props/C02.v", ["OrderCases.vo", "OrderUnifyCases.vo"])
     hb = vlib.harness_bin(ctx)
     rng = ctx.rng
     bw = gen.boundary_words()
@@ -74,10 +74,10 @@ def check(ctx):
             ok, jout, diag = vlib.run_harness_sharded(hb, ["judgements"], lines)
             ctx.oblige("harness:judgements", "search", ok, diag)
             usable = [(i, j) for i, j in zip(nondet, jout) if j.startswith("[")]
-            header = ("From Coq Require Import String.\nFrom SLX Require Import Base gen.WordUseTable TypeExpr Merge MergeCases OrderCases.\n"
+            header = ("From Coq Require Import String.\nFrom SLX Require Import Base gen.WordUseTable TypeExpr Merge MergeCases OrderCases OrderUnifyCases.\n"
                       "Open Scope string_scope. Open Scope N_scope.\n")
             hits = vlib.run_cases(ctx, "classify", header, [L.hexify("(%s : xjudgements)" % j) for _, j in usable],
-                                  per_shard=max(1, len(usable) // 16 + 1), fn="order_class_code_x")
+                                  per_shard=max(1, len(usable) // 16 + 1), fn="order_class_code2")
             known_idx = set(usable[k][0] for k, code in hits if code == 1)
             packed_idx = set(usable[k][0] for k, code in hits if code == 2)
             for i in nondet:
